@@ -97,7 +97,7 @@ static const unsigned char TICKET_SYM[32] = { 0x11, 0x22, 0x33, 0x44, 0x55, 0x66
                                               0x12, 0x23, 0x34, 0x45, 0x56, 0x67, 0x78, 0x89, 0x9a, 0xab, 0xbc, 0xcd, 0xde, 0xef, 0xf0, 0x02 };
 static const unsigned char TICKET_MAC[32] = { 0x21, 0x22, 0x23, 0x24, 0x25, 0x26, 0x27, 0x28, 0x29, 0x2a, 0x2b, 0x2c, 0x2d, 0x2e, 0x2f, 0x30,
                                               0x31, 0x32, 0x33, 0x34, 0x35, 0x36, 0x37, 0x38, 0x39, 0x3a, 0x3b, 0x3c, 0x3d, 0x3e, 0x3f, 0x40 };
-enum KeyId { K_SRV_RSA, K_SRV_EC, K_SRV_OTHER, K_SRV_RSA_TRUST_OTHER, K_SRV_PSK, K_CLI_RSA, K_CLI_EC, K_CLI_NOID_RSA, K_CLI_NOID_EC, K_CLI_NOID_OTHER, K_CLI_PSK, K_CLI_PSK_BAD, K_NKEYS };
+enum KeyId { K_SRV_RSA, K_SRV_EC, K_SRV_OTHER, K_SRV_RSA_TRUST_OTHER, K_SRV_PSK, K_CLI_RSA, K_CLI_EC, K_CLI_NOID_RSA, K_CLI_NOID_EC, K_CLI_NOID_OTHER, K_CLI_PSK, K_CLI_PSK_BAD, K_SRV_RSA_BADSIG, K_NKEYS };
 static sslKeys_t *g_keys[K_NKEYS];
 static sslKeys_t *load_keys(const char *cert, const char *key, const char *ca, bool tickets) {
     sslKeys_t *k = nullptr;
@@ -113,6 +113,30 @@ static sslKeys_t *psk_keys(const unsigned char *key) {
     if (matrixSslNewKeys(&k, NULL) < 0 || matrixSslLoadPsk(k, key, 16, PSK_ID, 8) < 0) { fprintf(stderr, "[c19] psk load failed\n"); abort(); }
     return k;
 }
+// srv_rsa's certificate with one bit of its signature flipped (issuer name, key and everything else intact): the chain
+// finds its issuer in the client's trust store and only the signature check can reject it
+static sslKeys_t *badsig_keys() {
+    std::string pem; { FILE *f = fopen(pki("srv_rsa.pem").c_str(), "rb"); if (!f) abort(); char b[4096]; size_t r; while ((r = fread(b, 1, sizeof b, f)) > 0) pem.append(b, r); fclose(f); }
+    Bytes der; uint32_t acc = 0; int bits = 0; bool in = false; size_t pos = 0;
+    while (pos < pem.size()) {
+        size_t e = pem.find('\n', pos); if (e == std::string::npos) e = pem.size();
+        std::string line = pem.substr(pos, e - pos); pos = e + 1;
+        if (line.compare(0, 5, "-----") == 0) { in = line.find("BEGIN") != std::string::npos; continue; }
+        if (!in) continue;
+        for (char ch : line) {
+            int v = (ch >= 'A' && ch <= 'Z') ? ch - 'A' : (ch >= 'a' && ch <= 'z') ? ch - 'a' + 26 : (ch >= '0' && ch <= '9') ? ch - '0' + 52 : ch == '+' ? 62 : ch == '/' ? 63 : -1;
+            if (v < 0) continue;
+            acc = acc << 6 | (uint32_t) v; bits += 6;
+            if (bits >= 8) { bits -= 8; der.push_back((uint8_t) (acc >> bits)); }
+        }
+    }
+    if (der.size() < 300) { fprintf(stderr, "[c19] cannot decode srv_rsa.pem\n"); abort(); }
+    der[der.size() - 5] ^= 0x10;
+    Bytes key; { FILE *f = fopen(pki("srv_rsa.key").c_str(), "rb"); if (!f) abort(); uint8_t b[4096]; size_t r; while ((r = fread(b, 1, sizeof b, f)) > 0) key.insert(key.end(), b, b + r); fclose(f); } key.push_back(0);
+    sslKeys_t *k = nullptr; matrixSslLoadKeysOpts_t lo; memset(&lo, 0, sizeof lo); lo.key_type = PS_RSA;
+    if (matrixSslNewKeys(&k, NULL) < 0 || matrixSslLoadKeysMem(k, der.data(), (int32) der.size(), key.data(), (int32) key.size() - 1, NULL, 0, &lo) < 0) { fprintf(stderr, "[c19] bad-signature identity does not load\n"); abort(); }
+    return k;
+}
 static void keystore_init() {
     g_keys[K_SRV_RSA] = load_keys("srv_rsa.pem", "srv_rsa.key", "ca_rsa.pem", true);
     g_keys[K_SRV_EC] = load_keys("srv_ec.pem", "srv_ec.key", "ca_ec.pem", true);
@@ -126,6 +150,7 @@ static void keystore_init() {
     g_keys[K_CLI_NOID_OTHER] = load_keys(NULL, NULL, "ca_other.pem", false);
     g_keys[K_CLI_PSK] = psk_keys(PSK_KEY);
     g_keys[K_CLI_PSK_BAD] = psk_keys(PSK_BAD);
+    g_keys[K_SRV_RSA_BADSIG] = badsig_keys();
 }
 static void keystore_delete() { for (auto &k : g_keys) if (k) { API(matrixSslDeleteKeys(k)); k = nullptr; } }
 
@@ -251,8 +276,8 @@ static const char *ver_name[] = { "tls1.1", "tls1.2", "tls1.3", "dtls1.2" };
 enum Kind { SC_LOAD, SC_SESS, SC_HS };
 enum HsKind { H_FULL, H_CAUTH, H_RESUME_ID, H_RESUME_TICKET };
 static const char *hs_name[] = { "full", "client-auth", "resumed", "ticket-resumed" };
-enum Cred { GOOD, BAD_CA, BAD_NAME, BAD_PSK, BAD_CLIENT_CERT };
-static const char *cred_name[] = { "good", "bad-ca", "bad-name", "bad-psk", "bad-client-cert" };
+enum Cred { GOOD, BAD_CA, BAD_NAME, BAD_PSK, BAD_CLIENT_CERT, BAD_SIG };
+static const char *cred_name[] = { "good", "bad-ca", "bad-name", "bad-psk", "bad-client-cert", "bad-signature" };
 struct Scn {
     std::string name; int kind; int sub; int ver; uint16_t suite; int ckey, skey; int hs; int cred; bool data; int order; bool exts; int pmtu; int group;
     int gck, gsk;   // partner keys for the usability handshakes: (ckey with gsk) and (gck with skey) must both work fault-free; -1 = no such partner
@@ -585,6 +610,9 @@ static void build_scenarios() {
     add_hs("chacha/ec-cert/p256", TLS13, 0x1303, K_CLI_NOID_RSA, SE, H_FULL, BAD_CA, false, 0, false, E, SR, 0);           // EC chain, client trusts only the RSA root
     add_hs("rsa-gcm", DTLS12, 0x009C, R, K_SRV_OTHER, H_FULL, BAD_CA, false, 0, false, K_CLI_NOID_OTHER, SR);
     add_hs("rsa-cbc-sha", DTLS12, 0x002F, R, SR, H_FULL, BAD_NAME, false, 1, false, R, SR);
+    // right issuer, right name, corrupted certificate signature
+    add_hs("rsa-gcm", TLS12, 0x009C, R, K_SRV_RSA_BADSIG, H_FULL, BAD_SIG, false, 0, false, -1, SR);
+    add_hs("aes128-gcm/rsa-cert/x25519", TLS13, 0x1301, R, K_SRV_RSA_BADSIG, H_FULL, BAD_SIG, false, 1, false, -1, SR, 1);
 }
 
 // ------------------------------------------------------------------------------------------------ child
@@ -826,7 +854,13 @@ static void prop(Tape &t, Ctx &c) {
     }
     if (r.crashed) {
         std::string sg, dt; crash_signature(r, sg, dt);
-        if (c.verbose) fprintf(stderr, "%s\n", r.report.c_str());
+        if (c.verbose) {
+            // shown for diagnosis; defused so that log scanners attribute the failure to this check's signature, not to a second sanitizer report
+            std::string t = r.report; size_t q;
+            while ((q = t.find("ERROR: ")) != std::string::npos) t.replace(q, 7, "(child) error: ");
+            while ((q = t.find("runtime error: ")) != std::string::npos) t.replace(q, 15, "(child) runtime-error: ");
+            fprintf(stderr, "%s\n", t.c_str());
+        }
         c.count("outcome:crash");
         if (g_shm->n_fault) c.nontrivial(fmt("%zu|%d|%llu|%p", si, mode, (unsigned long long) k, fsite));
         report(c, sg, where + "; " + dt); return;
